@@ -22,7 +22,8 @@ func (prop) ID() string { return "C40" }
 func (prop) Rule() string {
 	return "cases: 8-40 ops over 2-4 notifiers, 1-2 namespaces/kinds and params {-,p,q} (also the aliasing names kind=k_p / param=p): " +
 		"sub (duplicates on the same key are common), err (closes the notifier's error channel; every waiting goroutine fires), errone (one error value: only the first parked goroutine of the notifier fires), sub on a notifier whose error already fired " +
-		"(the subscribe/unsubscribe race: the runner floods the subscribe channel first so that the select sees both channels non-empty), pub, dump. " +
+		"(the subscribe/unsubscribe race: the runner floods the subscribe channel first so that the select sees both channels non-empty), pub, dump, " +
+		"pubduring (a Publish parked inside a slow consumer's Notify while 0-3 events - error-channel close, single error, subscribe - are processed, followed by a plain pub). " +
 		"After every op the runner waits for quiescence (goroutine count, channel lengths, a sentinel subscription seen in the hook snapshot). " +
 		"The schedule-bit strings on sub/err lines are used by the model only. Non-trivial: >=2 subs, >=1 err and >=2 pubs; distinct by op-list hash."
 }
@@ -45,7 +46,12 @@ func (prop) Gen(r *core.Rand, tier string) []core.Case {
 		{ID: "fix-dup-nonadjacent", NT: true, Ops: []string{"sub n0 a k p", "sub n1 a k p", "sub n0 a k p", "sub n0 a k p", "sub n1 a k p", "err n0 1", "dump", "pub a k p m1", "err n1", "dump", "pub a k p m2"}},
 		{ID: "fix-one-error-duplicates", NT: true, Ops: []string{"sub n0 a k -", "sub n0 a k -", "sub n1 a k -", "sub n0 a k -", "sub n0 a k p", "errone n0", "dump", "pub a k p m1", "errone n0", "errone n0", "errone n0 1", "errone n0", "dump", "pub a k p m2"}},
 		{ID: "fix-namespace-key", NT: true, Ops: []string{"sub n0 a k -", "sub n1 a k p", "sub n2 a k q", "pub a k p m1", "pub a k q m2", "pub a k - m3", "pub a k_p - m4", "sub n3 a k_p -", "pub a k p m5", "pub b k p m6", "err n1", "pub a k p m7"}},
-		{ID: "fix-bad", NT: false, Ops: []string{"sub n0 a", "pub a k", "err", "sub N0 a k -", "pub a k - M", "sub n0 a k - 2", "dump x"}},
+		// a subscriber leaves while a Publish is parked in the middle of the list: the parked publish must go on
+		// over the list it loaded (copy-on-write), nobody is skipped, nobody is notified twice
+		{ID: "fix-leave-during-publish", NT: true, Ops: []string{"sub n0 a k p", "sub n1 a k p", "sub n2 a k p", "pubduring n0 a k p m1 e.n0", "dump", "pub a k p m2"}},
+		{ID: "fix-leave-during-publish-mid", NT: true, Ops: []string{"sub n0 a k -", "sub n1 a k -", "sub n1 a k -", "sub n2 a k -", "sub n3 a k p", "pubduring n1 a k p m1 o.n0,s.n0.a.k.p,e.n3 01", "dump", "pub a k p m2"}},
+		{ID: "fix-join-during-publish", NT: true, Ops: []string{"sub n0 a k -", "sub n1 a k -", "pubduring n0 a k p m1 s.n2.a.k.-,s.n3.a.k.p,s.n1.a.k.p", "pub a k p m2", "pubduring n3 a k - m3 e.n0", "pubduring n0 b k - m4 e.n1,o.n2", "pub a k p m5"}},
+		{ID: "fix-bad", NT: false, Ops: []string{"sub n0 a", "pub a k", "err", "sub N0 a k -", "pub a k - M", "sub n0 a k - 2", "dump x", "pubduring n0 a k - m x.n0", "pubduring n0 a k - m e.N0", "pubduring n0 a k", "pubduring n0 a k - m s.n0.a.k"}},
 	}
 	for i := 0; i < n; i++ {
 		c := core.Case{ID: fmt.Sprintf("g%d", i)}
@@ -68,7 +74,44 @@ func (prop) Gen(r *core.Rand, tier string) []core.Case {
 		for k := 0; k < nops; k++ {
 			nt := notifiers[r.Intn(nn)]
 			ns, kd, pa := nss[r.Intn(nns)], kinds[r.Intn(nk)], params[r.Intn(len(params))]
-			switch x := r.Intn(20); {
+			switch x := r.Intn(23); {
+			case x >= 20:
+				// a publish parked in a slow consumer while subscribers leave / join; then publish again
+				var evs []string
+				for j := r.Range(1, 3); j > 0; j-- {
+					en := notifiers[r.Intn(nn)]
+					if r.Chance(40) {
+						en = nt
+					}
+					switch y := r.Intn(10); {
+					case y < 5:
+						if dead[en] && r.Chance(70) {
+							continue
+						}
+						evs = append(evs, "e."+en)
+						dead[en] = true
+						errs++
+					case y < 7:
+						evs = append(evs, "o."+en)
+						errs++
+					default:
+						if dead[en] {
+							if races >= 3 {
+								continue
+							}
+							races++
+						}
+						evs = append(evs, fmt.Sprintf("s.%s.%s.%s.%s", en, ns, kd, params[r.Intn(len(params))]))
+						subs++
+					}
+				}
+				ev := "-"
+				if len(evs) > 0 {
+					ev = strings.Join(evs, ",")
+				}
+				c.Ops = append(c.Ops, fmt.Sprintf("pubduring %s %s %s %s m%d %s%s", nt, ns, kd, pa, k, ev, sched()))
+				c.Ops = append(c.Ops, fmt.Sprintf("pub %s %s %s m%dx", ns, kd, pa, k))
+				pubs += 2
 			case x < 8:
 				if dead[nt] {
 					if races >= 3 && r.Chance(80) {
@@ -117,8 +160,28 @@ type fakeN struct {
 func (f *fakeN) Notify(key string, data interface{}) error {
 	f.rn.mu.Lock()
 	f.rn.log = append(f.rn.log, delivery{f.id, key, fmt.Sprint(data)})
+	g := f.rn.gate
+	if g != nil && g.id == f.id && !g.used {
+		g.used = true
+	} else {
+		g = nil
+	}
 	f.rn.mu.Unlock()
+	if g != nil {
+		// slow consumer: the publisher is parked inside this Notify call until the runner opens the gate
+		g.entered <- struct{}{}
+		<-g.release
+	}
 	return nil
+}
+
+// gate makes the first Notify call to notifier `id` block (a slow consumer: NotifierWithMsgChan with a
+// full channel, an rpc notifier on a stalled connection).
+type gate struct {
+	id      string
+	used    bool
+	entered chan struct{}
+	release chan struct{}
 }
 func (f *fakeN) Err() <-chan error { return f.errc }
 
@@ -149,6 +212,7 @@ type runner struct {
 	nsent   int
 	dummies []*fakeN
 	broken  bool
+	gate    *gate
 	// oracle
 	expect map[string][]string // notifier -> messages it must have received, in order
 	got    map[string][]string
@@ -253,6 +317,104 @@ func (rn *runner) notifier(id string) *nstate {
 	return st
 }
 
+// subEv / errEv / erroneEv: one subscribe / error-channel close / single error value, followed by the
+// wait for quiescence.  Used by the plain ops and by the events of `pubduring`.
+func (rn *runner) subEv(id, ns, kind, p string) string {
+	st := rn.notifier(id)
+	key := ns + "_" + kind
+	if p != "" {
+		key += "_" + p
+	}
+	if st.dead {
+		// the race: make process busy with a burst of junk subscriptions, so that this subscription and
+		// its immediate unsubscription are both pending when the select runs
+		d := &fakeN{id: "~d", errc: make(chan error), rn: rn}
+		for i := 0; i < floodLen; i++ {
+			_ = rn.sp.Subscribe(d, junkNS, "j", "")
+		}
+		_ = rn.sp.Subscribe(st.f, ns, kind, p)
+		rn.dummies = append(rn.dummies, d) // their goroutines stay parked until Close
+		rn.alive += floodLen
+		st.zombie[key]++
+	} else {
+		_ = rn.sp.Subscribe(st.f, ns, kind, p)
+		st.calls++
+		rn.alive++
+		st.subs[key]++
+		st.oneErr[key] = false
+		st.order = append(st.order, key)
+	}
+	if !rn.settle() {
+		rn.broken = true
+		return "sched-fail"
+	}
+	return "ok"
+}
+
+func (rn *runner) errEv(id string) string {
+	st := rn.notifier(id)
+	if !st.dead {
+		st.dead = true
+		rn.alive -= st.calls
+		st.calls, st.order = 0, nil
+		close(st.f.errc)
+	}
+	if !rn.settle() {
+		rn.broken = true
+		return "sched-fail"
+	}
+	return "ok"
+}
+
+func (rn *runner) erroneEv(id string) string {
+	st := rn.notifier(id)
+	if st.dead || len(st.order) == 0 {
+		return "nowait"
+	}
+	// one error value: exactly one parked goroutine (the one that blocked first) receives it
+	st.f.errc <- fmt.Errorf("one error")
+	key := st.order[0]
+	st.order = st.order[1:]
+	st.calls--
+	rn.alive--
+	st.subs[key] = 0 // oracle: one unsubscription must remove every entry of the notifier on that key
+	st.oneErr[key] = true
+	if !rn.settle() {
+		rn.broken = true
+		return "sched-fail"
+	}
+	return "ok"
+}
+
+// event of a `pubduring` line: e.<n> | o.<n> | s.<n>.<ns>.<kind>.<param>
+type event struct {
+	kind             byte
+	n, ns, kd, param string
+}
+
+func parseEvents(a string) ([]event, bool) {
+	if a == "-" {
+		return nil, true
+	}
+	var out []event
+	for _, f := range strings.Split(a, ",") {
+		x := strings.Split(f, ".")
+		switch {
+		case len(x) == 2 && (x[0] == "e" || x[0] == "o") && validName(x[1]):
+			out = append(out, event{kind: x[0][0], n: x[1]})
+		case len(x) == 5 && x[0] == "s" && validName(x[1]) && validName(x[2]) && validName(x[3]):
+			p, ok := param(x[4])
+			if !ok {
+				return nil, false
+			}
+			out = append(out, event{kind: 's', n: x[1], ns: x[2], kd: x[3], param: p})
+		default:
+			return nil, false
+		}
+	}
+	return out, true
+}
+
 func (rn *runner) Step(ctx *core.Ctx, op []string) string {
 	if rn.broken {
 		return "sched-fail"
@@ -263,72 +425,29 @@ func (rn *runner) Step(ctx *core.Ctx, op []string) string {
 		if !ok || !validName(op[1]) || !validName(op[2]) || !validName(op[3]) {
 			return "bad-op"
 		}
-		st := rn.notifier(op[1])
-		key := op[2] + "_" + op[3]
-		if p != "" {
-			key += "_" + p
-		}
-		if st.dead {
-			// the race: make process busy with a burst of junk subscriptions, so that this subscription and
-			// its immediate unsubscription are both pending when the select runs
-			d := &fakeN{id: "~d", errc: make(chan error), rn: rn}
-			for i := 0; i < floodLen; i++ {
-				_ = rn.sp.Subscribe(d, junkNS, "j", "")
-			}
-			_ = rn.sp.Subscribe(st.f, op[2], op[3], p)
-			rn.dummies = append(rn.dummies, d) // their goroutines stay parked until Close
-			rn.alive += floodLen
-			st.zombie[key]++
-		} else {
-			_ = rn.sp.Subscribe(st.f, op[2], op[3], p)
-			st.calls++
-			rn.alive++
-			st.subs[key]++
-			st.oneErr[key] = false
-			st.order = append(st.order, key)
-		}
-		if !rn.settle() {
-			rn.broken = true
-			return "sched-fail"
-		}
-		return "ok"
+		return rn.subEv(op[1], op[2], op[3], p)
 	case (len(op) == 2 || len(op) == 3 && validSched(op[2])) && op[0] == "err":
 		if !validName(op[1]) {
 			return "bad-op"
 		}
-		st := rn.notifier(op[1])
-		if !st.dead {
-			st.dead = true
-			rn.alive -= st.calls
-			st.calls, st.order = 0, nil
-			close(st.f.errc)
-		}
-		if !rn.settle() {
-			rn.broken = true
-			return "sched-fail"
-		}
-		return "ok"
+		return rn.errEv(op[1])
 	case (len(op) == 2 || len(op) == 3 && validSched(op[2])) && op[0] == "errone":
 		if !validName(op[1]) {
 			return "bad-op"
 		}
-		st := rn.notifier(op[1])
-		if st.dead || len(st.order) == 0 {
-			return "nowait"
+		return rn.erroneEv(op[1])
+	case (len(op) == 7 || len(op) == 8 && validSched(op[7])) && op[0] == "pubduring":
+		// pubduring <slow> <ns> <kind> <param> <msg> <events> [bits]: Publish runs on its own goroutine and
+		// parks inside the first Notify call to <slow> (a slow consumer); while it is parked the events are
+		// applied one by one, each followed by the wait for quiescence (process has applied it: hook
+		// snapshot); then the gate opens and the publish finishes.  If the publish never reaches <slow> it
+		// simply completes and the events are applied afterwards.
+		p, ok := param(op[4])
+		evs, ok2 := parseEvents(op[6])
+		if !ok || !ok2 || !validName(op[1]) || !validName(op[2]) || !validName(op[3]) || !validName(op[5]) {
+			return "bad-op"
 		}
-		// one error value: exactly one parked goroutine (the one that blocked first) receives it
-		st.f.errc <- fmt.Errorf("one error")
-		key := st.order[0]
-		st.order = st.order[1:]
-		st.calls--
-		rn.alive--
-		st.subs[key] = 0 // oracle: one unsubscription must remove every entry of the notifier on that key
-		st.oneErr[key] = true
-		if !rn.settle() {
-			rn.broken = true
-			return "sched-fail"
-		}
-		return "ok"
+		return rn.pubDuring(ctx, op[1], op[2], op[3], p, op[5], evs)
 	case len(op) == 5 && op[0] == "pub":
 		p, ok := param(op[3])
 		if !ok || !validName(op[1]) || !validName(op[2]) || !validName(op[4]) {
@@ -371,8 +490,8 @@ func (rn *runner) Step(ctx *core.Ctx, op []string) string {
 	return "bad-op"
 }
 
-// oracle: the property on the Notify calls of one Publish (all earlier ops are quiescent).
-func (rn *runner) oracle(ctx *core.Ctx, keys []string, msg string) {
+// tally: per notifier and key, how many Notify calls the log holds; wrong message / key / key order.
+func (rn *runner) tally(ctx *core.Ctx, keys []string, msg string) map[string]map[string]int {
 	got := map[string]map[string]int{} // notifier -> key -> count
 	for _, d := range rn.log {
 		if d.msg != msg {
@@ -390,6 +509,22 @@ func (rn *runner) oracle(ctx *core.Ctx, keys []string, msg string) {
 			ctx.Fail("wrong-key", "%s notified for key %s, published keys %v", d.n, d.key, keys)
 		}
 	}
+	// order: the namespace-wide key is served before the specific key
+	seenSpecific := false
+	for _, d := range rn.log {
+		if len(keys) == 2 && d.key == keys[1] {
+			seenSpecific = true
+		}
+		if len(keys) == 2 && d.key == keys[0] && seenSpecific {
+			ctx.Fail("key-order", "namespace-wide key notified after the specific key")
+		}
+	}
+	return got
+}
+
+// oracle: the property on the Notify calls of one Publish (all earlier ops are quiescent).
+func (rn *runner) oracle(ctx *core.Ctx, keys []string, msg string) {
+	got := rn.tally(ctx, keys, msg)
 	for id, st := range rn.ns {
 		for _, k := range keys {
 			g := got[id][k]
@@ -409,14 +544,111 @@ func (rn *runner) oracle(ctx *core.Ctx, keys []string, msg string) {
 			}
 		}
 	}
-	// order: the namespace-wide key is served before the specific key
-	seenSpecific := false
-	for _, d := range rn.log {
-		if len(keys) == 2 && d.key == keys[1] {
-			seenSpecific = true
+}
+
+// pubDuring: a Publish that is parked inside a slow consumer's Notify while subscriptions and
+// unsubscriptions are processed.  Oracle (model-free, on the observed Notify calls of this publish):
+// a notifier that was subscribed when the publish started and is still subscribed when it ends got the
+// message once per subscription it had at the start — no entry is skipped — and nobody got it more often
+// than it had subscriptions (at the start or at the end, whichever is larger); a notifier whose error
+// had fired (and been processed) before the publish started got nothing.
+func (rn *runner) pubDuring(ctx *core.Ctx, slow, ns, kind, p, msg string, evs []event) string {
+	keys := []string{ns + "_" + kind}
+	if p != "" {
+		keys = append(keys, keys[0]+"_"+p)
+	}
+	type pre struct {
+		dead bool
+		subs map[string]int
+	}
+	before := map[string]pre{}
+	for id, st := range rn.ns {
+		m := map[string]int{}
+		for _, k := range keys {
+			m[k] = st.subs[k]
 		}
-		if len(keys) == 2 && d.key == keys[0] && seenSpecific {
-			ctx.Fail("key-order", "namespace-wide key notified after the specific key")
+		before[id] = pre{st.dead, m}
+	}
+	g := &gate{id: slow, entered: make(chan struct{}, 1), release: make(chan struct{})}
+	rn.mu.Lock()
+	rn.log = nil
+	rn.gate = g
+	rn.mu.Unlock()
+	done := make(chan struct{})
+	rn.alive++
+	go func() {
+		defer close(done)
+		_ = rn.sp.Publish(ns, kind, p, msg)
+	}()
+	parked := false
+	select {
+	case <-g.entered:
+		parked = true
+	case <-done:
+		rn.alive--
+	case <-time.After(5 * time.Second):
+		rn.broken = true
+	}
+	if !rn.broken {
+		for _, e := range evs {
+			r := ""
+			switch e.kind {
+			case 'e':
+				r = rn.errEv(e.n)
+			case 'o':
+				r = rn.erroneEv(e.n)
+			case 's':
+				r = rn.subEv(e.n, e.ns, e.kd, e.param)
+			}
+			if r == "sched-fail" {
+				break
+			}
 		}
 	}
+	close(g.release)
+	if parked {
+		select {
+		case <-done:
+		case <-time.After(5 * time.Second):
+			rn.broken = true
+		}
+		rn.alive--
+	}
+	rn.mu.Lock()
+	rn.gate = nil
+	rn.mu.Unlock()
+	if rn.broken {
+		return "sched-fail"
+	}
+	got := rn.tally(ctx, keys, msg)
+	for id, st := range rn.ns {
+		b := before[id]
+		for _, k := range keys {
+			n, b0, b1 := got[id][k], b.subs[k], st.subs[k]
+			upper := b0
+			if b1 > upper {
+				upper = b1
+			}
+			switch {
+			case b.dead && n > 0:
+				ctx.Fail("delivery-after-error/during-publish", "%s got %d message(s) on %s although its error channel had fired before the publish started", id, n, k)
+			case !b.dead && !st.dead && b1 >= b0 && n < b0:
+				ctx.Fail("missed-delivery/during-publish", "%s had %d subscription(s) on %s when the publish started and never left, but got %d message(s): an entry was skipped while another subscriber left", id, b0, k, n)
+			case !b.dead && n > upper:
+				ctx.Fail("extra-delivery/during-publish", "%s got %d message(s) on %s from one publish with at most %d subscription(s)", id, n, k, upper)
+			}
+		}
+	}
+	var out []string
+	for _, d := range rn.log {
+		out = append(out, d.n+":"+d.key+":"+d.msg)
+	}
+	pk := "p=0 "
+	if parked {
+		pk = "p=1 "
+	}
+	if len(out) == 0 {
+		return pk + "-"
+	}
+	return pk + strings.Join(out, ",")
 }
